@@ -183,7 +183,7 @@ def replay_behaviours(behs, pid="C01"):
                     m = args[0]
                     mm, kw = (("itzhack", {"version": int(m[-1])}) if m.startswith("itzhack") else
                               (("sarabandi", {"threshold": 0.0}) if m == "sarabandi" else (m, {})))
-                    disp = args[1] if args[1] != "QuaternionArray(DCM=)" else "QuaternionArray(DCM=)#2@1"
+                    disp = args[1] if not args[1].startswith("QuaternionArray") else args[1] + "#2@1"
                     qn = np.asarray(c02.dispatch(disp, Rm, mm, kw))
                     if np.iscomplexobj(qn):
                         raise TypeError("complex quaternion from %s" % m)
